@@ -40,6 +40,9 @@ type fileConfig struct {
 	callbacks    []ConfigReloadCallback
 	mux          sync.RWMutex
 	lastLoadTime time.Time
+	// currentVersion is the version NewConfig was called with; Reload validates
+	// with the same version so that it accepts exactly what startup accepts.
+	currentVersion []string
 }
 
 // ensure that fileConfig implements Config
@@ -644,6 +647,7 @@ func NewConfig(opts *CmdEnv, currentVersion ...string) (Config, error) {
 	}
 
 	cfg.callbacks = make([]ConfigReloadCallback, 0)
+	cfg.currentVersion = currentVersion
 
 	return cfg, err
 }
@@ -666,8 +670,10 @@ func (f *fileConfig) Reload(opts ...ReloadedConfigDataOption) error {
 	}
 
 	// reread the configs
-	cfg, err := newFileConfig(f.opts, newData.configs, newData.rules)
-	if err != nil {
+	cfg, err := newFileConfig(f.opts, newData.configs, newData.rules, f.currentVersion...)
+	// like NewConfig, only fail on fatal errors (cfg == nil); a non-nil cfg with
+	// err means the new config is usable and err carries warnings only
+	if cfg == nil {
 		return err
 	}
 
